@@ -8,6 +8,9 @@ CONSTANTS
   ChunkMax = 1
   Parts = {"sm"}
   Interleave = FALSE
+  BodySizes = {}
+  MaxArrive = 0
+  RepeatGuard = TRUE
   CheckDigest = FALSE
 VIEW mcView
 PROPERTIES AnnouncementHeard
